@@ -1161,6 +1161,43 @@ impl snow::resolvers::CryptoResolver for ZeroDhResolver {
     }
 }
 
+/// Message 1 of `Noise_NK_25519_ChaChaPoly_SHA256` written by hand (the specification's steps on the default
+/// resolver's hash and cipher objects) by a peer whose ephemeral public key is all-zero, so that `es` is all-zero
+/// whatever the responder's static key is: the message authenticates at an honest responder.
+fn handmade_nk_msg1(rs_pub: &[u8], payload: &[u8]) -> Option<Vec<u8>> {
+    use snow::resolvers::CryptoResolver;
+    let res = snow::resolvers::DefaultResolver;
+    let mut hash = res.resolve_hash(&snow::params::HashChoice::SHA256)?;
+    let mut cipher = res.resolve_cipher(&snow::params::CipherChoice::ChaChaPoly)?;
+    let name = b"Noise_NK_25519_ChaChaPoly_SHA256";
+    let mut h = [0u8; 32];
+    h.copy_from_slice(name); // exactly 32 bytes: used as is
+    let ck0 = h;
+    let mut mix = |h: &mut [u8; 32], data: &[u8]| {
+        let mut out = [0u8; 64];
+        hash.reset();
+        hash.input(&h[..]);
+        hash.input(data);
+        hash.result(&mut out);
+        h.copy_from_slice(&out[..32]);
+    };
+    mix(&mut h, &[]); // prologue
+    mix(&mut h, rs_pub); // pre-message: <- s
+    let e_pub = [0u8; 32];
+    mix(&mut h, &e_pub); // token e
+    let (mut o1, mut o2, mut o3) = ([0u8; 64], [0u8; 64], [0u8; 64]);
+    let mut hash2 = res.resolve_hash(&snow::params::HashChoice::SHA256)?;
+    hash2.hkdf(&ck0, &[0u8; 32], 2, &mut o1, &mut o2, &mut o3); // token es: DH output all-zero
+    let mut k = [0u8; 32];
+    k.copy_from_slice(&o2[..32]);
+    cipher.set(&k);
+    let mut c = vec![0u8; payload.len() + 16];
+    let n = cipher.encrypt(0, &h, payload, &mut c);
+    let mut msg = e_pub.to_vec();
+    msg.extend_from_slice(&c[..n]);
+    Some(msg)
+}
+
 /// C19 (implementation only): messages of a peer with non-contributory DH keys. Whatever the victim's read returns,
 /// an `Err` must not leave the decrypted payload in the caller's buffer (seed C19-K: a verdict given after the payload
 /// was decrypted), and nothing may panic.
@@ -1217,6 +1254,41 @@ fn gen_noncontributory(run: &mut Run, seed: u64) {
             Err(_) => sc.viol("C10", format!("{name}: panic while reading a message of a peer with all-zero DH keys")),
         }
         sc.count("noncontributory.sessions");
+    }
+    // the same against a hand-written message (the peer above runs snow's own code, which may refuse to write)
+    {
+        let payload = r.bytes(48);
+        let res = std::panic::catch_unwind(std::panic::AssertUnwindSafe(|| -> Option<String> {
+            let params: snow::params::NoiseParams = "Noise_NK_25519_ChaChaPoly_SHA256".parse().unwrap();
+            let vs = [7u8; 32];
+            let kp_pub = crate::gen::pub_of("default", "25519", &vs)?;
+            let mut victim = snow::Builder::new(params).local_private_key(&vs).ok()?.build_responder().ok()?;
+            let msg = handmade_nk_msg1(&kp_pub, &payload)?;
+            let mut b = vec![0xA5u8; 200];
+            match victim.read_message(&msg, &mut b) {
+                Ok(n) => {
+                    if b[..n] != payload[..] {
+                        Some("hand-written NK message 1 accepted with another payload".into())
+                    } else {
+                        Some("ACCEPTED".into())
+                    }
+                },
+                Err(e) => {
+                    if b.windows(payload.len()).any(|w| w == payload.as_slice()) {
+                        Some(format!("Noise_NK: a hand-written message 1 with an all-zero ephemeral was refused with {e:?} but the decrypted payload is in the caller's buffer"))
+                    } else {
+                        None
+                    }
+                },
+            }
+        }));
+        match res {
+            Ok(Some(w)) if w == "ACCEPTED" => sc.count("noncontributory.handmade_accepted"),
+            Ok(Some(w)) => sc.viol("C19", w),
+            Ok(None) => {},
+            Err(_) => sc.viol("C10", "panic while reading a hand-written NK message with an all-zero ephemeral".into()),
+        }
+        sc.count("noncontributory.handmade");
     }
     run.add("noncontrib", "peer with all-zero DH keys".into(), sc);
 }
